@@ -19,6 +19,8 @@ pub enum Arm {
 #[derive(Clone, Debug)]
 pub struct PCase {
     pub prim: &'static str, // "u8" | "i8" | "str"
+    /// second primitive counterpart (i16) with a dedicated literal per variant: (value, written before the default instruction?)
+    pub second: Vec<Option<(i64, bool)>>,
     pub arms: Vec<Arm>,
     pub kinds: usize, // 0 = map_owned (+try), 1 = map (owned + ref, + try), 2 = from_owned only (patterns need no into)
     pub tags: Vec<String>,
@@ -64,6 +66,26 @@ pub fn gen(ctx: &mut Ctx, max_variants: usize) -> Option<PCase> {
         };
         arms.push(a);
     }
+    // a second counterpart type (i16): every variant maps to it through a dedicated #[literal(i16| v)] - or, when it
+    // has none, through its default literal
+    let mut second = vec![];
+    if prim != "str" && kinds == 0 && arms.iter().all(|a| matches!(a, Arm::Literal(_))) && ctx.flag() {
+        for (i, _) in arms.iter().enumerate() {
+            second.push(match ctx.choose(3) {
+                0 => None,
+                1 => Some((300 + i as i64, false)),
+                _ => Some((300 + i as i64, true)),
+            });
+        }
+        // the default literals must be pairwise distinct and valid for both types, else the i16 match has unreachable / out-of-range arms
+        let lits: Vec<i64> = arms.iter().filter_map(|a| if let Arm::Literal(k) = a { Some(*k) } else { None }).collect();
+        let mut d = lits.clone();
+        d.sort();
+        d.dedup();
+        if d.len() != lits.len() || lits.iter().any(|k| *k < 0 || *k > 127) {
+            return ctx.reject();
+        }
+    }
     if kinds == 2 && arms.iter().any(|a| matches!(a, Arm::Ghost(_))) {
         return ctx.reject(); // a ghost variant only matters for Into
     }
@@ -81,7 +103,10 @@ pub fn gen(ctx: &mut Ctx, max_variants: usize) -> Option<PCase> {
     tags.push(format!("literals={}", if dl.len() == lits.len() { "distinct" } else { "overlapping" }));
     tags.sort();
     tags.dedup();
-    Some(PCase { prim, arms, kinds, tags })
+    if !second.is_empty() {
+        tags.push("two-counterparts".into());
+    }
+    Some(PCase { prim, second, arms, kinds, tags })
 }
 
 impl PCase {
@@ -128,6 +153,9 @@ impl PCase {
         match self.kinds {
             0 => {
                 let _ = writeln!(o, "#[{t}from_owned({ty}{e}| {dflt_from})]\n#[owned_{t}into({ty}{e})]");
+                if !self.second.is_empty() {
+                    let _ = writeln!(o, "#[{t}from_owned(i16{e}| {dflt_from})]\n#[owned_{t}into(i16{e})]");
+                }
             }
             1 => {
                 let _ = writeln!(o, "#[{t}from({ty}{e}| {dflt_from})]\n#[{t}into({ty}{e})]");
@@ -142,7 +170,11 @@ impl PCase {
             let vn = format!("V{}", i);
             match a {
                 Arm::Literal(k) => {
-                    let _ = writeln!(o, "    #[literal({})] {},", self.lit(*k), vn);
+                    match self.second.get(i).cloned().flatten() {
+                        Some((v, true)) => { let _ = writeln!(o, "    #[literal(i16| {})] #[literal({})] {},", v, self.lit(*k), vn); }
+                        Some((v, false)) => { let _ = writeln!(o, "    #[literal({})] #[literal(i16| {})] {},", self.lit(*k), v, vn); }
+                        None => { let _ = writeln!(o, "    #[literal({})] {},", self.lit(*k), vn); }
+                    }
                 }
                 Arm::Range(a, b, v) => {
                     let _ = writeln!(o, "    #[pattern({}..={})] {}{},", a, b, if needs_into { format!("#[into({{ {} }})] ", self.lit(*v)) } else { String::new() }, vn);
@@ -200,6 +232,22 @@ impl PCase {
             let _ = writeln!(o, "    r.eq(\"from_ref\", &(n, sidx(&<S as From<&{ty}>>::from(&p))), &(n, EXP[n])); r.eq(\"try_from_ref\", &(n, sfidx(&<Sf as TryFrom<&{ty}>>::try_from(&p))), &(n, EXP[n]));");
         }
         let _ = writeln!(o, "  }}");
+        if !self.second.is_empty() {
+            // the second counterpart: dedicated literal where given, else the default one; everything else -> default case
+            for (i, a) in self.arms.iter().enumerate() {
+                let k = if let Arm::Literal(k) = a { *k } else { 0 };
+                let v2 = self.second[i].map(|x| x.0).unwrap_or(k);
+                let _ = writeln!(o, "  r.eq(\"from_owned/i16 V{i}\", &<S as From<i16>>::from({v2}i16), &S::V{i}); r.eq(\"owned_into/i16 V{i}\", &<S as Into<i16>>::into(S::V{i}), &{v2}i16);");
+                let _ = writeln!(o, "  r.eq(\"try_from_owned/i16 V{i}\", &<Sf as TryFrom<i16>>::try_from({v2}i16), &Ok::<Sf, Er>(Sf::V{i})); r.eq(\"try_owned_into/i16 V{i}\", &<Sf as TryInto<i16>>::try_into(Sf::V{i}), &Ok::<i16, Er>({v2}i16));");
+                if self.second[i].is_some() {
+                    // the default literal of a variant that has a dedicated one is NOT a literal of the second type
+                    let taken = (0..self.arms.len()).any(|j| { let kj = if let Arm::Literal(kj) = &self.arms[j] { *kj } else { -1 }; self.second[j].map(|x| x.0).unwrap_or(kj) == k });
+                    if !taken {
+                        let _ = writeln!(o, "  r.eq(\"from_owned/i16 default-case {k}\", &<S as From<i16>>::from({k}i16), &S::Dflt);");
+                    }
+                }
+            }
+        }
         if has_into {
             for (i, a) in self.arms.iter().enumerate() {
                 let (sv, sfv, exp) = match a {
